@@ -612,8 +612,11 @@ fn c13(tier: Tier) -> i32 {
         (vec!["sr-Cyrl", "sr-Latn", "zh-Hant-TW", "zh-Hans"], "sr-Latn"),
         (vec!["de", "de-1996", "ca-valencia"], "de"),
         (vec!["fr", "de"], "en"),
+        // names that are valid but not in canonical BCP-47 spelling: the string form is the configured name
+        (vec!["en", "pt-br", "zh-hant-tw", "sr_Latn"], "pt-br"),
     ];
     if tier == Tier::Thorough {
+        sets.push((vec!["EN", "en-gb", "Fr", "AR"], "Fr"));
         sets.push((vec!["ur", "ps", "yi", "dv", "en", "az-Arab"], "en"));
         sets.push((vec!["pt-BR", "pt-PT", "pt", "es-419", "es"], "pt"));
     }
